@@ -155,6 +155,34 @@ func runPRNG(c *eng.Ctx, pc prngCase) {
 		return fmt.Sprintf("only %d of %d bytes differ between keys %x and %x", diff, len(s1), key, key2)
 	})
 	c.Distinct(fmt.Sprintf("prng/%d", pc.KeyLen), true)
+	// the generator owns its key: a caller that reuses the byte slice it passed to NewKeyedPRNG (one seed buffer
+	// patched per party, a buffer returned to a pool) must not change what Reset replays nor what Key returns
+	if pc.KeyLen > 0 {
+		kbuf := append([]byte(nil), key...)
+		p4, err := sampling.NewKeyedPRNG(kbuf)
+		if err == nil {
+			a, _ := stream(p4, chunks[:8])
+			for i := range kbuf {
+				kbuf[i] ^= 0xa5
+			}
+			p4.Reset()
+			b, _ := stream(p4, chunks[:8])
+			c.Check(bytes.Equal(a, b) && bytes.Equal(a, s1[:len(a)]), pre+".Reset|does-not-replay|caller-key-buffer-overwritten", func() string {
+				return fmt.Sprintf("key length %d: after the caller overwrote its key slice, Reset replays another stream", pc.KeyLen)
+			})
+			c.Check(bytes.Equal(p4.Key(), key), pre+".Key|follows-caller-buffer", func() string {
+				return fmt.Sprintf("Key()=%x want %x", p4.Key(), key)
+			})
+			// and the slice returned by Key is not a handle on the generator's state either
+			k := p4.Key()
+			for i := range k {
+				k[i] ^= 0x5a
+			}
+			p4.Reset()
+			b2, _ := stream(p4, chunks[:8])
+			c.Check(bytes.Equal(a, b2), pre+".Reset|does-not-replay|Key-result-overwritten", nil)
+		}
+	}
 	// Key(): documented to allow re-instantiation of the same stream through NewKeyedPRNG
 	for _, ctor := range []string{"NewKeyedPRNG", "NewPRNG"} {
 		var p *sampling.KeyedPRNG
